@@ -521,6 +521,7 @@ type Contract struct {
 	Modifies  []Expr // location expressions; nil + ModNothing
 	ModSet    bool   // a modifies clause was given
 	External  bool   // `extern`: assumed contract of a function outside /repo
+	Allocates bool   // with `function`: may allocate (and write what it allocated); still writes no pre-existing memory
 	Pure      bool   // no heap writes and no allocation
 	Floats    FloatMode
 	FloatsSet bool
@@ -598,7 +599,7 @@ func (cf *ContractFile) parse(src, file string) error {
 	}
 	keywords := map[string]bool{"func": true, "extern": true, "requires": true, "ensures": true, "modifies": true, "pure": true,
 		"floats": true, "mode": true, "inline": true, "trusted": true, "ovf": true, "loop": true, "lemma": true, "spec": true,
-		"opt": true, "ghost": true, "specfold": true, "uses": true, "nopanic": true, "purefuncs": true, "function": true, "nowrite": true, "callpre": true}
+		"opt": true, "ghost": true, "specfold": true, "allocates": true, "uses": true, "nopanic": true, "purefuncs": true, "function": true, "nowrite": true, "callpre": true}
 	var clauses []string
 	for _, ln := range lines {
 		if ln == "" {
@@ -799,9 +800,15 @@ func (c *Contract) addClause(kw, rest string) error {
 		}
 		cl.Name = strings.TrimSpace(rest[:i])
 		c.CallPre = append(c.CallPre, cl)
+	case "allocates":
+		// a `function` that builds temporaries: deterministic in its arguments and the memory they
+		// reach, frame `modifies nothing`, but not allocation-free
+		c.Allocates = true
+		c.Pure = false
+		c.ModSet = true
 	case "function":
 		c.Function = true
-		c.Pure = true
+		c.Pure = !c.Allocates
 		c.ModSet = true
 	case "ovf":
 		if strings.TrimSpace(rest) == "assume" {
